@@ -21,9 +21,9 @@ STRINGS = [
     "x" * 300, "\x00", "\x1f", "\r", "a\r\nb", "\x7f", "\ud7ff", "\ufffd", "=", "<<", "?", "|", ">", "@at", "`bt`", "%p",
     "'", '"', "''", "\\", "\\n", "a b", "k0", "item", "type", "config",
     "http://example.com/index.html", "src/*.py and tests/*/conftest.py", "// not a comment", "/* neither */", "a//b", "# x", "<!--x-->",
-    "C:\\ProgramData\\app\\", "ends-with-backslash\\", "^[a-z0-9_,]+$", "{a, b, }", "[1, 2, ]", "First_x0020_Name", "l1_x000A_l2", "_x0041_", "_x000D_", "&#10;", "&#x41;", "\\u0041", "%41", "p1\n\np2", "l1\n  \nl2\n", "\n\n\n", "--", "%YAML 1.2", "---", "...", "&anchor", "*alias", "!!python/object:os.system", "${HOME}", "%(x)s", "{{ x }}",
+    "@@0@@", "@@1@@", "@@2@@", "__0__", "\x000", "{0}", "%s", "caf\udce9.log", "\udc80", "$HOME", "${PATH}", "tok-${HOME}-x", "C:\\ProgramData\\app\\", "ends-with-backslash\\", "^[a-z0-9_,]+$", "{a, b, }", "[1, 2, ]", "First_x0020_Name", "l1_x000A_l2", "_x0041_", "_x000D_", "&#10;", "&#x41;", "\\u0041", "%41", "p1\n\np2", "l1\n  \nl2\n", "\n\n\n", "--", "%YAML 1.2", "---", "...", "&anchor", "*alias", "!!python/object:os.system", "${HOME}", "%(x)s", "{{ x }}",
 ]
-KEYS = ["k0", "k1", "k2", "item", "type", "config", "a.b", "a-b", "_u", "K", "x9", "CONFIG", "cfg", "key", "value",
+KEYS = ["@@0@@", "k0", "k1", "k2", "item", "type", "config", "a.b", "a-b", "_u", "K", "x9", "CONFIG", "cfg", "key", "value",
         "list", "dict", "str", "none"]
 ODD_KEYS = ["ver\uff0e2", "\uff04set", "a\uff0eb", "\uff0e", "k_x0041_", "", "1", "a b", "k\u00e9", "<k>", "a:b", "true", "null", "~", "$x", "a\x00b", "-d", ".d", "\U0001f600"]
 INTS = [0, 1, -1, 2, 255, 2**31 - 1, 2**31, -2**31, -2**31 - 1, 2**32, 2**53 + 1, 2**63 - 1, -2**63, 2**63, -2**63 - 1,
@@ -111,8 +111,8 @@ def in_domain(fmt, value, top=True):
     if isinstance(value, float):
         return True
     if isinstance(value, str):
-        if not _no_surrogates(value):
-            return False
+        if not _no_surrogates(value) and fmt not in ("json", "yaml", "pickle"):
+            return False  # (JSON escapes them, YAML and pickle carry them; BSON and XML cannot)
         if fmt == "xml":
             return all(_xml_char(c) for c in value)  # '\r' is not in _xml_char
         return True
@@ -120,7 +120,7 @@ def in_domain(fmt, value, top=True):
         return all(in_domain(fmt, v, False) for v in value)
     if isinstance(value, dict):
         for k, v in value.items():
-            if not isinstance(k, str) or not _no_surrogates(k):
+            if not isinstance(k, str) or (not _no_surrogates(k) and fmt not in ("json", "yaml", "pickle")):
                 return False
             if fmt == "xml" and not _XML_NAME.match(k):
                 return False
